@@ -137,6 +137,18 @@ func r16_5(c *Ctx, r *Report) {
 			for _, m := range []int64{1, 2, 3, 4, 5, 6, 7, 8, 9, 10, 11, 12, -1, -4, -11, -12} {
 				env := &dayEnv{problems: problems, fields: map[string]int64{"LunarMonth.year": 1984 + y, "LunarMonth.month": m}}
 				env.extra = func(fr *evalFrame, v ssa.Value, leaf leafX) (interface{}, bool) {
+					if rc, f, ok := getterField(c, v); ok && f == "LunarYear.zhiIndex" {
+						// the year branch of the year object, read through its getter or directly
+						if o, ok := evalWith(fr, rc, leaf); ok {
+							if p, isP := o.(absPtr); isP {
+								var yy int64
+								if _, err := fmt.Sscanf(p.tag, "year %d", &yy); err == nil {
+									return floorModN(yy-4, 12), true
+								}
+							}
+						}
+						return nil, false
+					}
 					if call, ok := v.(*ssa.Call); ok && call.Common().StaticCallee() != nil {
 						callee := call.Common().StaticCallee()
 						if callee.Name() == "NewLunarYear" && len(call.Common().Args) == 1 {
